@@ -24,6 +24,7 @@ Four independent interpreters of ``U`` live here:
 from __future__ import annotations
 
 import decimal
+import json
 import math
 import warnings
 
@@ -208,19 +209,29 @@ class Neutral:
         return ce
 
 
-def to_sa(u, neutral=None):
-    """Build ``u`` with the real expression API (``neutral``: see ``Neutral``)."""
+def to_sa(u, neutral=None, memo=None):
+    """Build ``u`` with the real expression API (``neutral``: see ``Neutral``).
+    ``memo`` (dict): identical sub-trees become ONE shared element object (DAG-shaped input)."""
+    if memo is None:
+        return _to_sa_impl(u, neutral, None)
+    key = json.dumps(u)
+    if key not in memo:
+        memo[key] = _to_sa_impl(u, neutral, memo)
+    return memo[key]
+
+
+def _to_sa_impl(u, neutral, memo):
     S = _sa()
     sa = S["sa"]
     k = u[0]
 
     def sub(c):
-        return to_sa(c, neutral)
+        return to_sa(c, neutral, memo)
 
     def opd(pos):
         if u[pos][0] in ("pi", "ps"):
             return u[pos][1]  # a plain Python value: coerced by the operator implementation
-        e = to_sa(u[pos], neutral)
+        e = to_sa(u[pos], neutral, memo)
         if neutral is not None:
             e = neutral.operand(k, pos, u[pos], e, u)
         return e
@@ -1403,6 +1414,10 @@ def frag_bool(rng, d, div="all", opnds="all"):
             if rng.random() < 0.2:
                 return [rng.choice(["eq", "ne", "is", "isnot"]), frag_str(rng, 1, div, opnds), ["null"]]
             return [rng.choice(CMP), frag_str(rng, rng.randint(0, 2), div, opnds), frag_str(rng, rng.randint(0, 2), div, opnds)]
+        if x < 0.6:
+            # the LIKE family over string-valued operands, with or without escape=
+            return [rng.choice(LIKES), frag_str(rng, rng.randint(0, 2), div, opnds), frag_str(rng, rng.randint(0, 2), div, opnds),
+                    rng.choice([None, None, "/", "!", "a"])]
         return [rng.choice(CMP), frag_num(rng, rng.randint(0, 2), div), frag_num(rng, rng.randint(0, 2), div)]
     k = rng.choice(["and", "or", "not", "and", "or"])
     if k == "not":
